@@ -89,7 +89,13 @@ void *memset(void *, int, unsigned long);
     SHIM_ASSERT(n <= g_alloc_bound, "shim.alloc.bounded_by_input"); \
     if (n > v->cap) { SHIM_ASSERT(v->size == 0, "shim.vector.growing_resize_of_nonempty_vector_not_modelled"); \
       T *nd = (T *)malloc(n * sizeof(T)); __CPROVER_assume(nd != 0); memset(nd, 0, n * sizeof(T)); v->data = nd; v->cap = n; } \
-    else if (n > v->size) { SHIM_ASSERT(0, "shim.vector.growing_resize_within_capacity_not_modelled"); } \
+    else if (n > v->size) { /* growth within the capacity: the new elements are value-initialised */ \
+      unsigned long k_ = v->size; \
+      while (k_ < n) \
+        __CPROVER_assigns(k_, __CPROVER_object_whole(v->data)) \
+        __CPROVER_loop_invariant(k_ >= v->size && k_ <= n) \
+        __CPROVER_decreases(n - k_) \
+      { memset(&v->data[k_], 0, sizeof(T)); k_++; } } \
     v->size = n; }
 
 #define OPT_T(T, M) struct opt_##M { _Bool has; T val; };
@@ -103,6 +109,9 @@ void *memset(void *, int, unsigned long);
 #define RITER_F(T, M)
 #define RITER_PREINC(p) ((p)->base = (p)->base - 1, (p))
 #define RITER_PREDEC(p) ((p)->base = (p)->base + 1, (p))
+/* rit++ / rit-- used as statements (the old value is discarded in every use the translator accepts) */
+#define RITER_POSTINC(p) ((p)->base = (p)->base - 1, (p))
+#define RITER_POSTDEC(p) ((p)->base = (p)->base + 1, (p))
 #define OPAQUE_DECL(M) struct opaque_##M { char __opaque; };
 
 /* std::function<R(Args...)>: code pointer + environment (the closure object of a lambda, or null) */
@@ -112,7 +121,13 @@ void *nondet_ptr(void);
 static inline void *shim_opaque_ptr(void) { void *p = nondet_ptr(); __CPROVER_assume(p != 0); return p; }
 /* ---- std::chrono::system_clock::now(): nanoseconds, nondeterministic but monotone (ghost g_last_now) ---- */
 extern long g_last_now;
-static inline long shim_now_ns(void) { long t = nondet_long(); __CPROVER_assume(t >= g_last_now && t < ((long)1 << 62)); g_last_now = t; return t; }
+#ifdef SHIM_CLOCK_FRESH
+extern _Bool g_clock_fresh;   /* ghost: set by every clock reading, cleared by whoever consumes "a fresh reading" (C11 deadline oracle) */
+#define SHIM_CLOCK_READ() (g_clock_fresh = 1)
+#else
+#define SHIM_CLOCK_READ() ((void)0)
+#endif
+static inline long shim_now_ns(void) { long t = nondet_long(); __CPROVER_assume(t >= g_last_now && t < ((long)1 << 62)); g_last_now = t; SHIM_CLOCK_READ(); return t; }
 /* ---- std::atomic<bool>::compare_exchange (sequential model; weak form may fail spuriously) ---- */
 /* compare_exchange_weak may fail spuriously by the standard; on the x86-64 target this repository is built for here it is
    `lock cmpxchg` and cannot.  Default: weak == strong (listed as an assumption in every evidence file that uses it);
